@@ -9,6 +9,7 @@ From TP Require Import Model.Prelude Extracted Model.Json Model.Api Proofs.ApiPr
 (** UpdateToxicJson decodes the body into a copy of the toxic and installs it on success *)
 Theorem C06_update_decodes_into_copy : update_in_place = false.
 Proof. reflexivity. Qed.
+Print Assumptions C06_update_decodes_into_copy.
 
 Theorem C06_rejected_unchanged : forall e s r,
   rejected (fst (api_step e s r)) ->
@@ -17,6 +18,7 @@ Theorem C06_rejected_unchanged : forall e s r,
    exists h, fst (route routes (r_meth r) (r_path r) false) = Some h /\
              (h = "ProxyUpdate" \/ h = "Populate" \/ h = "ResetState")%string).
 Proof. exact (rejected_unchanged C06_update_decodes_into_copy). Qed.
+Print Assumptions C06_rejected_unchanged.
 
 Theorem C06_populate_all_or_nothing : forall e s b,
   match b with
@@ -26,6 +28,7 @@ Theorem C06_populate_all_or_nothing : forall e s b,
   end ->
   snd (h_populate e s b) = s /\ 400 <= status (fst (h_populate e s b)) < 500.
 Proof. exact populate_all_or_nothing. Qed.
+Print Assumptions C06_populate_all_or_nothing.
 
 (** the decoder really is the partial-assignment one (so the theorem above is not vacuous): an
     ill-typed field is skipped, later fields are still assigned, and an error is reported *)
